@@ -1,9 +1,9 @@
 SPECIFICATION Spec
 CONSTANTS
   Keys = {1, 2}
-  Vals = {1}
-  MaxChain = 3
-  MaxWrites = 5
+  Vals = {1, 2}
+  MaxChain = 2
+  MaxWrites = 6
   MaxReopens = 1
   DevF7 = FALSE
 INVARIANTS TypeOK ReopenSeesPersisted ChainMatchesFile ChainBounded AgesOK MemoryCoversFile FilterSound
